@@ -3,7 +3,8 @@
 EXTENDS PolyOps, Json
 CONSTANTS NA, NB,          \* A uses doubled coordinates {0,4,..,4*NA}, B uses {2,6,..,2+4*(NB-1)}
           MT,              \* thinning of the receiver/argument type matrix (1 = all nine combinations)
-          F2N, MF2, MP2    \* F2: lattice 0..F2N (undoubled), thinning factors for rings and for pairs
+          F2N, MF2, MP2,   \* F2: lattice 0..F2N (undoubled), thinning factors for rings and for pairs
+          NBB, MTW         \* F1B: odd lattice {2,..,2+4*(NBB-1)} for the *Bounds dispatch family; thinning of its two-box partners
 VARIABLE c
 EvenC == {4 * k : k \in 0..NA}
 OddC == {2 + 4 * k : k \in 0..(NB - 1)}
@@ -30,6 +31,26 @@ F1K(ka, kb) == { [kind |-> "f1", op |-> op, A |-> a, B |-> b, ta |-> ta, tb |-> 
 F1 == UNION {F1K(ka, kb) : ka \in Kinds, kb \in Kinds}
 F1Thin == {x \in F1 : (HashS(x.A) + 3 * HashS(x.B) + (IF x.ta = "Polygon" THEN 1 ELSE IF x.ta = "Bounds" THEN 2 ELSE 0)
                         + (IF x.tb = "Polygon" THEN 5 ELSE IF x.tb = "Bounds" THEN 7 ELSE 0)) % MT = 0}
+(* F1B: the *Bounds dispatch.  A rectangle meets a holed box or a pair of boxes on the other lattice; for every partner Y
+   and every pattern of the rectangle's four corners with respect to Y (in / out), the smallest and the largest rectangle
+   showing that pattern are taken, in both argument positions, for all four operations. *)
+OddCB == {2 + 4 * k : k \in 0..(NBB - 1)}
+WB == IF 4 * NA > 4 * NBB THEN 4 * NA ELSE 4 * NBB
+SBB == ShapesOn(OddCB)
+CornerPat(b, Y) == <<InOperand(b[1], Y), InOperand(b[2], Y), InOperand(b[3], Y), InOperand(b[4], Y)>>
+BoxArea(b) == (b[3][1] - b[1][1]) * (b[3][2] - b[1][2])
+BoxKey(b) == BoxArea(b) * 4096 + b[1][1] * 256 + b[1][2] * 16 + (b[3][1] % 16)
+Reps(SX, Y) == LET bs == {x[1][1] : x \in SX.box}
+                   pats == {CornerPat(b, Y) : b \in bs}
+                   lo(pt) == CHOOSE b \in bs : CornerPat(b, Y) = pt /\ \A b2 \in bs : CornerPat(b2, Y) = pt => BoxKey(b) <= BoxKey(b2)
+                   hi(pt) == CHOOSE b \in bs : CornerPat(b, Y) = pt /\ \A b2 \in bs : CornerPat(b2, Y) = pt => BoxKey(b) >= BoxKey(b2)
+               IN {lo(pt) : pt \in pats} \cup {hi(pt) : pt \in pats}
+Partners(SY) == [holed |-> SY.holed, two |-> {y \in SY.two : HashS(y) % MTW = 0}]
+F1BRecv(ky) == UNION { { [kind |-> "f1", op |-> op, A |-> << <<b>> >>, B |-> y, ta |-> "Bounds", tb |-> tb, w |-> WB] :
+                            op \in Ops, b \in Reps(SA, y), tb \in TypesFor(ky) } : y \in Partners(SBB)[ky] }
+F1BArg(ky) == UNION { { [kind |-> "f1", op |-> op, A |-> y, B |-> << <<b>> >>, ta |-> ta, tb |-> "Bounds", w |-> WB] :
+                           op \in Ops, b \in Reps(SBB, y), ta \in TypesFor(ky) } : y \in Partners(SA)[ky] }
+F1B == IF NBB = 0 THEN {} ELSE F1BRecv("holed") \cup F1BRecv("two") \cup F1BArg("holed") \cup F1BArg("two")
 (* F2: lattice triangles and quadrilaterals (coordinates x 4), valid and in general position *)
 Grid2 == {<<4 * x, 4 * y>> : x \in 0..F2N, y \in 0..F2N}
 Tri == TLCEval({r \in [1..3 -> Grid2] : HashP(r, 1) % MF2 = 0 /\ SimpleRing(r)})
@@ -38,6 +59,6 @@ F2Pairs == TLCEval({p \in (Tri \cup Quad) \X (Tri \cup Quad) :
                       (HashQ(p[1], 1) * 31 + HashQ(p[2], 1)) % MP2 = 0 /\ p[1] # p[2] /\ GeneralPositionRings(p[1], p[2])})
 F2 == { [kind |-> "f2", op |-> op, A |-> << <<p[1]>> >>, B |-> << <<p[2]>> >>, ta |-> ta, tb |-> tb, w |-> 4 * F2N] :
           op \in Ops, p \in F2Pairs, ta \in {"Polygon", "MultiPolygon"}, tb \in {"Polygon"} }
-GenInit == c \in F1Thin \cup (IF F2N = 0 THEN {} ELSE F2) /\ PrintT(ToJson(c))
+GenInit == c \in F1Thin \cup F1B \cup (IF F2N = 0 THEN {} ELSE F2) /\ PrintT(ToJson(c))
 GenSpec == GenInit /\ [][UNCHANGED c]_c
 =============================================================================
